@@ -186,7 +186,7 @@ AdmissionKind(s, ev) ==
 ------------------------------------------------------------------------------
 (* C13 *)
 \* a transaction not signed by the parties its messages belong to changes nothing at all
-ModState(s) == <<s.ent.po, s.ent.rq, s.ent.aq, s.ent.wl, s.ent.locked, s.ent.spent, s.ent.p, s.wrk.p, s.wrk.ch, s.bcn.p, s.bcn.ch, s.str.p, s.str.s, s.bal, s.supply, s.grants>>
+ModState(s) == <<s.ent.po, s.ent.rq, s.ent.aq, s.ent.wl, s.ent.locked, s.ent.spent, s.ent.p, s.wrk.p, s.wrk.ch, s.bcn.p, s.bcn.ch, s.str.p, s.str.s, s.bal, s.supply, s.grants, s.fgrants>>
 WronglySigned(ev) == ev.a = "DeliverTx" /\ ~SigsOk(TxOf(ev))
 UnsignedChangesNothing(s, t, ev) == WronglySigned(ev) => ModState(s) = ModState(t)
 C13Step(s, t, ev) == UnsignedChangesNothing(s, t, ev)
@@ -199,9 +199,9 @@ NotHalted(s) == ~s.halted
 EntDenomChanged(s) == s.ent.p.denom # s.ent.totLockedDen \/ \E i \in DOMAIN s.ent.po : s.ent.po[i].den # s.ent.p.denom
 \* what a failed transaction may still change: fee, sequence, eFUND unlock (the pre-execution stage)
 MsgState(s) == <<s.ent.po, s.ent.rq, s.ent.aq, s.ent.wl, s.ent.next, s.ent.p, s.wrk.p, s.wrk.ch, s.wrk.next,
-                 s.bcn.p, s.bcn.ch, s.bcn.next, s.str.p, s.str.s, s.supply, s.bal["stream"], s.grants>>
+                 s.bcn.p, s.bcn.ch, s.bcn.next, s.str.p, s.str.s, s.supply, s.bal["stream"], s.grants, s.fgrants>>
 FailedTxKeepsState(s, t, ev, ok) == (ev.a = "DeliverTx" /\ ~ok) => MsgState(s) = MsgState(t)
-QueriesAndChecksReadOnly(s, t, ev) == ev.a \in {"CheckTx", "Commit", "Crash", "ListQueries"} => ModState(s) = ModState(t)
+QueriesAndChecksReadOnly(s, t, ev) == ev.a \in {"CheckTx", "Recheck", "Commit", "Crash", "ListQueries"} => ModState(s) = ModState(t)
 
 ------------------------------------------------------------------------------
 (* C16 *)
